@@ -73,6 +73,23 @@ proof fn lemma_vec_consumed(d: Seq<u8>, p: int, v: Seq<u8>)
     requires 0 <= p, p + 4 <= d.len(), ({ let n = be32_val(d.subrange(p, p + 4)); 0 <= n && p + 4 + n <= d.len() && v == d.subrange(p + 4, p + 4 + n) })
     ensures d.subrange(p, p + 4 + v.len()) =~= vec_enc(v), v.len() == be32_val(d.subrange(p, p + 4))
 { lemma_be32_canonical(d.subrange(p, p + 4)); }
+// a tag byte followed by one / two decoded vectors is exactly the wire form
+proof fn lemma_tagged1(d: Seq<u8>, p0: int, tag: u8, v: Seq<u8>)
+    requires 0 <= p0, p0 + 5 <= d.len(), d[p0] == tag,
+             ({ let n = be32_val(d.subrange(p0 + 1, p0 + 5)); 0 <= n && p0 + 5 + n <= d.len() && v == d.subrange(p0 + 5, p0 + 5 + n) })
+    ensures d.subrange(p0, p0 + 5 + v.len()) =~= seq![tag] + vec_enc(v), v.len() <= 0xffff_ffff
+{ lemma_vec_consumed(d, p0 + 1, v); lemma_be32_canonical(d.subrange(p0 + 1, p0 + 5)); assert(d.subrange(p0, p0 + 5 + v.len()) =~= seq![tag] + d.subrange(p0 + 1, p0 + 5 + v.len())); }
+proof fn lemma_tagged2(d: Seq<u8>, p0: int, tag: u8, v: Seq<u8>, w: Seq<u8>)
+    requires 0 <= p0, p0 + 5 <= d.len(), d[p0] == tag,
+             ({ let n = be32_val(d.subrange(p0 + 1, p0 + 5)); 0 <= n && p0 + 5 + n + 4 <= d.len() && v == d.subrange(p0 + 5, p0 + 5 + n)
+                && ({ let q = p0 + 5 + n; let k = be32_val(d.subrange(q, q + 4)); 0 <= k && q + 4 + k <= d.len() && w == d.subrange(q + 4, q + 4 + k) }) })
+    ensures d.subrange(p0, p0 + 5 + v.len() + 4 + w.len()) =~= seq![tag] + vec_enc(v) + vec_enc(w), v.len() <= 0xffff_ffff, w.len() <= 0xffff_ffff
+{
+    lemma_tagged1(d, p0, tag, v);
+    let q = p0 + 5 + v.len();
+    lemma_vec_consumed(d, q, w); lemma_be32_canonical(d.subrange(q, q + 4));
+    assert(d.subrange(p0, q + 4 + w.len()) =~= d.subrange(p0, q) + d.subrange(q, q + 4 + w.len()));
+}
 '''
 
 
@@ -117,12 +134,8 @@ ensures
     old(bytes).left() >= 1 && old(bytes).data()[old(bytes).pos()] > 2 ==> r == Err::<PingPongMessage, CodecError>(CodecError::UnexpectedValue),
     old(bytes).left() == 0 ==> r is Err,
 ''', ghost_before=[('let message_type', 'let ghost d = bytes.data();\nlet ghost p0 = bytes.pos();')],
-           after=[('let verifier_share = decode_u32_items(bytes)?;', '''
-    lemma_vec_consumed(d, p0 + 1, verifier_share@); assert(d.subrange(p0, bytes.pos()) =~= seq![0u8] + vec_enc(verifier_share@));
-''', 0), ('let verifier_share = decode_u32_items(bytes)?;', '''
-    lemma_vec_consumed(d, p0 + 1, verifier_message@); lemma_vec_consumed(d, p0 + 1 + 4 + verifier_message@.len(), verifier_share@);
-    assert(d.subrange(p0, bytes.pos()) =~= seq![1u8] + vec_enc(verifier_message@) + vec_enc(verifier_share@));
-''', 1), ('let verifier_message = decode_u32_items(bytes)?;', '''
-    lemma_vec_consumed(d, p0 + 1, verifier_message@); assert(d.subrange(p0, bytes.pos()) =~= seq![2u8] + vec_enc(verifier_message@));
-''', 1)])
+           after=[('let verifier_share = decode_u32_items(bytes)?;', 'lemma_tagged1(d, p0, 0u8, verifier_share@);', 0),
+                  ('let verifier_share = decode_u32_items(bytes)?;', 'lemma_tagged2(d, p0, 1u8, verifier_message@, verifier_share@);', 1),
+                  ('let verifier_message = decode_u32_items(bytes)?;', 'lemma_tagged1(d, p0, 2u8, verifier_message@);', 1)])
+    u.oracle = {'inject': 'src/topology/ping_pong.rs', 'file': 'pingpong_codec_oracle.rs', 'test': 'verif_oracle_pp_codec::oracle_'}
     return u
